@@ -577,6 +577,32 @@ def check(model, rep, tier):
     rep.check(got == want, 'BI-FRAME', '%s:innermost=%s' % (fi.site, want),
               '%s must search with innermost=%s' % (fn_name, want),
               {'found': got}, line=fi.node.lineno)
+  # zero-argument super: class from the frame's __class__ cell, instance from
+  # the frame's first argument (PEP 3135)
+  sf = model.func(PYB, 'super_in_original_context')
+  fp = sf.params(skip_self=False)
+  rets = [r for r in core.walk_no_nested(sf.node) if isinstance(r, ast.Return) and
+          isinstance(r.value, ast.Call) and core.norm(r.value.func) == fp[0] and
+          len(r.value.args) == 2 and not any(isinstance(a, ast.Starred)
+                                              for a in r.value.args)]
+  ok = len(rets) == 1
+  facts = {}
+  if ok:
+    frame = "_find_originating_frame(%s, innermost=False)" % fp[2]
+    a0 = tpl.xnorm(sf, rets[0].value.args[0], rets[0])
+    a1 = tpl.xnorm(sf, rets[0].value.args[1], rets[0])
+    facts = {'type_arg': a0, 'self_arg': a1}
+    ok = a0 in ("%s.f_locals['__class__']" % frame,
+                "%s.f_locals.get('__class__')" % frame) and \
+        a1 in ("%s.f_locals[%s.f_code.co_varnames[0]]" % (frame, frame),
+               "%s.f_locals.get(%s.f_code.co_varnames[0])" % (frame, frame))
+  rep.check(ok, 'BI-FRAME', '%s:class-cell-and-first-argument' % sf.site,
+            'zero-argument super() must be completed with the __class__ cell of '
+            'the originating frame (the class that lexically defines the method) '
+            'and that frame\'s first argument; the run-time type of the receiver '
+            'is a different class whenever the method runs on a subclass '
+            'instance', facts, line=sf.node.lineno,
+            witness='class Leaf(Mid): pass; Leaf().m() where Mid.m calls super().m()')
   # generated scope name == with-as name == FunctionScope.name
   n_t = 0
   for s in tpl.find_sites(model, [FUNCS]):
@@ -622,6 +648,12 @@ def check(model, rep, tier):
            init.params()[1] for s in init.node.body)
   rep.check(ok, 'BI-FRAME', '%s:name-field' % init.site,
             'FunctionScope.name must be the scope name argument', line=init.node.lineno)
+
+  # ---------------------------------------------------------------- dependencies
+  rep.depends('C13', ['CALL-POLICY'],
+              'the context-sensitive builtins are served by the builtin branch of '
+              'converted_call: every earlier exit of the policy chain runs them in '
+              'the wrapper frame instead')
 
 
 def _check_forward(b, args, kws, pairs, supplied, ov_args, assume=None):
